@@ -224,7 +224,7 @@ func (ex *Exec) loopMods(li *loopInfo) (cells map[*ssa.Alloc]bool, heaps map[str
 					var fc *FuncContract
 					var callee *ssa.Function
 					if c.IsInvoke() {
-						fc = ex.eng.CS.Funcs[ifaceMethodKey(c.Value.Type(), c.Method)]
+						_, fc = ex.eng.ifaceContract(c.Value.Type(), c.Method)
 					} else if callee = c.StaticCallee(); callee != nil {
 						key := funcKey(callee)
 						if callee.Origin() != nil {
@@ -794,13 +794,16 @@ func (eng *Engine) VerifyFunc(fn *ssa.Function, fc *FuncContract) (em *Emitter, 
 	}
 	isInit := fn.Name() == "init" && fn.Synthetic != ""
 	for _, gi := range eng.CS.GInvs {
-		if gi.Pkg != fn.Pkg.Pkg.Path() {
+		// a package invariant holds once that package is initialised: inside the package itself (except in its
+		// initialiser, where it is proved) and in every package that imports it, directly or not
+		if gi.Pkg == fn.Pkg.Pkg.Path() {
+			if isInit {
+				continue // proved here, not assumed
+			}
+		} else if !importsTransitively(fn.Pkg.Pkg, gi.Pkg, map[*types.Package]bool{}) {
 			continue
 		}
-		if isInit {
-			continue // proved here, not assumed
-		}
-		env := &Env{ex: ex, st: st, old: st, vars: map[string]Val{}, pkg: fn.Pkg.Pkg, where: "ginv " + gi.Name}
+		env := &Env{ex: ex, st: st, old: st, vars: map[string]Val{}, pkg: eng.typesPkgOr(gi.Pkg, fn.Pkg.Pkg), where: "ginv " + gi.Name}
 		em.emit("(assert " + env.evalBool(gi.Expr) + ") ; ginv " + gi.Name)
 		ex.usedContracts["ginv "+gi.Pkg+"."+gi.Name] = true
 	}
